@@ -35,6 +35,16 @@ fn sample_of(c: &TV, bytes: &[u8]) -> Value {
 
 pub fn check_c01(c: &TV, acc: &mut Acc, record: bool) -> Verdict {
     let h = hash_json(&(&c.ty, &c.val));
+    // now and then an encoding that fails half-way comes first on this thread (a supported string, then a character
+    // the format cannot hold): what it leaves behind is none of this value's business
+    if h % 23 == 0 {
+        let junk = Ty::Tuple(vec![Ty::Str, Ty::Vec(std::sync::Arc::new(Ty::Char)), Ty::U32]);
+        let jv = Val::Tuple(vec![Val::str("left over"), Val::Seq(vec![Val::Char('a' as u32), Val::Char(0x1F600)]), Val::Int(7)]);
+        let failed = if h % 2 == 0 { vcat::encode(&junk, &jv).0.is_err() } else { vcat::encode_via_bytes(&junk, &jv).0.is_err() };
+        if record && failed {
+            acc.bump("cases_preceded_by_a_failing_encode_on_the_thread", 1);
+        }
+    }
     let (enc, _as_written) = if h & 1 == 0 { vcat::encode(&c.ty, &c.val) } else { vcat::encode_via_bytes(&c.ty, &c.val) };
     let bytes = match enc {
         Ok(b) => b,
